@@ -94,6 +94,16 @@ CHECKS = {
             "Trusted: TLC; crash points that cannot be injected through the API (accumulate; slice/reqgrad/delta beyond the first "
             "batch of the first run) are reported as unrealisable; PROGRAMS table in the worker is verified by a dry run.",
             "DESIGN.md §5 C07"),
+    "C06": (["DLSBook", "DLSBook_Trace"],
+            "step-shaped TLA+ model of deep_lift_shap's pair/batch/queue book-keeping (DLSBook.tla) model-checked with TLC "
+            "(safety + liveness); recorded calls pushed through its actions by DLSBook_Trace, with a memo state variable for "
+            "bit-identical results across batchings",
+            "TLC checks every (N, S, B): blocks emitted from exactly their own pairs, in order, seeds random_state+j, termination. "
+            "Every reference call and forward of the real function (recording exact-integer model, identities encoded in the "
+            "sequences) must be the model's next step, and the per-example result digest must equal the first one seen for that "
+            "(example, seed/flags) under every batch size, subset and permutation.",
+            "Trusted: TLC; Tanh.forward patched to z*z in the worker for exact integer multipliers; CRC32 digests.",
+            "DESIGN.md §5 C06"),
 }
 
 ALL = ["C%02d" % i for i in range(1, 21)]
